@@ -766,6 +766,184 @@ def check_taptree_builder(chk, F):
     chk.floor(R, "brace shapes", n_ok, 30)
 
 
+# ---- R10.7 descriptor key expressions ---------------------------------------------------------------------------
+
+DPK = "descriptor::key::DescriptorPublicKey"
+CHILD = "bitcoin::bip32::ChildNumber"
+
+
+def key_machine(F):
+    """rust-bitcoin key / bip32 types modelled structurally: keys by their text, a fingerprint by its 4 bytes, a child
+    number by (index, hardened), a derivation path by the list of its child numbers"""
+    from ..builtins import deref, PyFmt, FMT_OK
+    m = Machine(F, strict=True, max_depth=80)
+    h = m.hooks
+    HEX = "0123456789abcdefABCDEF"
+
+    def fp_from_hex(m_, a, c):
+        s = deref(a[0])
+        if len(s) == 8 and all(ch in HEX for ch in s):
+            return ok(PyVec([int(s[i:i + 2], 16) for i in range(0, 8, 2)]))
+        return err(Term("HexError", s))
+    h["bitcoin::bip32::Fingerprint::from_hex"] = fp_from_hex
+    h["bitcoin::bip32::Fingerprint::as_bytes"] = lambda m_, a, c: deref(a[0])
+
+    def child_from_str(m_, a, c):
+        s = deref(a[0])
+        hard = s.endswith("'") or s.endswith("h")
+        body = s[:-1] if hard else s
+        if body and all("0" <= ch <= "9" for ch in body) and int(body) < 2**31:
+            return ok(Adt(CHILD, "Hardened" if hard else "Normal", {"index": int(body)}))
+        return err(Term("Bip32Error", s))
+    h["<bitcoin::bip32::ChildNumber as std::str::FromStr>::from_str"] = child_from_str
+
+    def path_collect(v):
+        return PyVec(list(v))
+    h["<bitcoin::bip32::DerivationPath as std::default::Default>::default"] = lambda m_, a, c: PyVec([])
+    h["std::default::Default::default"] = lambda m_, a, c: PyVec([]) if "DerivationPath" in (c.get("self_ty") or "") \
+        else __import__("msverif.builtins", fromlist=["x"])._default(m_, a, c)
+    h["bitcoin::bip32::DerivationPath::len"] = lambda m_, a, c: len(deref(a[0]).items)
+    h["bitcoin::bip32::DerivationPath::is_empty"] = lambda m_, a, c: not deref(a[0]).items
+
+    def xkey_from_str(prefixes):
+        def f(m_, a, c):
+            s = deref(a[0])
+            if s[:4] in prefixes and len(s) == 111 and all(ch.isalnum() for ch in s):
+                return ok(("xkey", s))
+            return err(Term("XKeyError", s))
+        return f
+    h["<bitcoin::bip32::Xpub as std::str::FromStr>::from_str"] = xkey_from_str(("xpub", "tpub"))
+    h["<bitcoin::bip32::Xpriv as std::str::FromStr>::from_str"] = xkey_from_str(("xprv", "tprv"))
+
+    def pk_from_str(m_, a, c):
+        s = deref(a[0])
+        if len(s) in (66, 130) and all(ch in HEX for ch in s) and ((len(s) == 66 and s[:2] in ("02", "03")) or
+                                                                   (len(s) == 130 and s[:2] == "04")):
+            return ok(("pk", s.lower()))
+        return err(Term("KeyError", s))
+    h["<bitcoin::PublicKey as std::str::FromStr>::from_str"] = pk_from_str
+
+    def xonly_from_str(m_, a, c):
+        s = deref(a[0])
+        if len(s) == 64 and all(ch in HEX for ch in s):
+            return ok(("xonly", s.lower()))
+        return err(Term("KeyError", s))
+    h["<bitcoin::XOnlyPublicKey as std::str::FromStr>::from_str"] = xonly_from_str
+    h["<bitcoin::secp256k1::XOnlyPublicKey as std::str::FromStr>::from_str"] = xonly_from_str
+    m.key_display = True
+    return m
+
+
+def _key_fmt_value(orig):
+    from .. import builtins as B
+
+    def fmt_value(m, kind, x, f):
+        x = B.deref(x)
+        if getattr(m, "key_display", False):
+            if isinstance(x, tuple) and len(x) == 2 and x[0] in ("xkey", "pk", "xonly"):
+                f.out.append(x[1])
+                return B.FMT_OK
+            if isinstance(x, Adt) and x.path == CHILD:
+                f.out.append("%d%s" % (x.fields["index"], "'" if x.variant == "Hardened" else ""))
+                return B.FMT_OK
+        return orig(m, kind, x, f)
+    return fmt_value
+
+
+XPUB = "xpub" + "A1b2C3d4E5" * 10 + "ZZZZZZZ"
+PK33 = "02" + "ab" * 32
+PK65 = "04" + "cd" * 64
+XONLY = "ef" * 32
+
+
+def key_texts():
+    origins = ["", "[deadbeef]", "[deadbeef/0'/1/2147483647']", "[00000000/44'/0'/0']"]
+    out = []
+    for o in origins:
+        out += [o + PK33, o + PK65, o + XONLY]
+        for path in ("", "/0", "/0'/1", "/1/2/3'/4"):
+            for wc in ("", "/*", "/*h"):
+                out.append(o + XPUB + path + wc)
+        for mp in ("/<0;1>", "/0/<0;1;2>/5", "/<0';1'>/9", "/7'/<3;4>", "/<0;1>/*", "/1/<5;6;7>/2/*h"):
+            out.append(o + XPUB + mp)
+    return out
+
+
+def key_noncanonical():
+    """accepted spellings that print differently (hardened `h`): parse -> print -> parse must be stable"""
+    return ["[deadbeef/0h/1h]" + PK33, XPUB + "/0h/1", XPUB + "/3/*'", XPUB + "/<0h;1h>/*h", "[DEADBEEF/1]" + XPUB + "/2",
+            ]
+
+
+def key_rejected():
+    """a multipath step with a repeated index cannot be printed distinguishably: it must not be accepted"""
+    return [XPUB + "/<0;0;1>", XPUB + "/<1;1>", XPUB + "/<0;1;0>/*", "[deadbeef/1']" + XPUB + "/2/<7';7'>"]
+
+
+def check_key_expressions(chk, F):
+    from .. import builtins as B
+    R = "R10.7"
+    chk.rule(R, "descriptor public keys: for single keys (compressed, uncompressed, x-only) and extended keys with every "
+                "combination of origin, derivation path, multipath step and wildcard, parse(text) prints back as text and "
+                "the printed text parses to an equal key; accepted non-canonical spellings reach a fixed point after one "
+                "round trip")
+    fs = [it["path"] for i in F.impls if i["trait"] == "std::str::FromStr" and i["self_adt"] == DPK
+          for it in i["items"] if it["name"] == "from_str"]
+    if len(fs) != 1:
+        raise KeyError("FromStr for DescriptorPublicKey")
+    chk.saw(fs[0], F.fn("parse_xkey_deriv", file="descriptor/key.rs"), F.fn("parse_key_origin", file="descriptor/key.rs"),
+            F.fn("fmt_derivation_paths", file="descriptor/key.rs"))
+    m = key_machine(F)
+    orig = B.fmt_value
+    B.fmt_value = _key_fmt_value(orig)
+    # DerivationPath: collect / iteration / indexing on the list model
+    saved_collect = B.TRAIT_TABLE[("std::iter::Iterator", "collect")]
+    try:
+        n_ok = 0
+        for canonical, texts in ((True, key_texts()), (False, key_noncanonical())):
+            for s in texts:
+                key = s.replace(XPUB, "XPUB").replace(PK33, "PK33").replace(PK65, "PK65").replace(XONLY, "XONLY")
+                try:
+                    r = m.call_path(fs[0], [s])
+                    if r.variant != "Ok":
+                        chk.fail(R, key, "key expression does not parse: %s" % repr(r)[:160], where="src/descriptor/key.rs")
+                        continue
+                    k1 = r.fields["0"]
+                    out, _ = tm.display(m, k1)
+                    t1 = "".join(map(str, out))
+                    if canonical and t1 != s:
+                        chk.fail(R, key, "prints as %r" % t1.replace(XPUB, "XPUB")[:160], where="src/descriptor/key.rs")
+                        continue
+                    r2 = m.call_path(fs[0], [t1])
+                    if r2.variant != "Ok" or pstrip(r2.fields["0"]) != pstrip(k1):
+                        chk.fail(R, key, "printed form %r parses to a different key (%s)"
+                                 % (t1.replace(XPUB, "XPUB")[:120], r2.variant), where="src/descriptor/key.rs",
+                                 detail=[repr(pstrip(k1))[:600], repr(pstrip(r2.fields["0"]))[:600] if r2.variant == "Ok" else repr(r2)[:300]])
+                        continue
+                    out2, _ = tm.display(m, r2.fields["0"])
+                    if "".join(map(str, out2)) != t1:
+                        chk.fail(R, key, "printing is not a fixed point after one round trip", where="src/descriptor/key.rs")
+                        continue
+                    chk.ok(R)
+                    n_ok += 1
+                except Unsupported as e:
+                    chk.fail(R, "unanalysable:" + key, "unanalysable: %s" % e, where=e.where, kind="unanalysable")
+                except Panic as e:
+                    chk.fail(R, key, "panic: %s" % e, where="src/descriptor/key.rs")
+        for s in key_rejected():
+            key = s.replace(XPUB, "XPUB")
+            try:
+                r = m.call_path(fs[0], [s])
+                chk.obligation(R, r.variant == "Err", "reject|" + key, "a multipath step with a repeated index is accepted "
+                               "(its paths cannot be told apart when printed)", where="src/descriptor/key.rs")
+            except Unsupported as e:
+                chk.fail(R, "unanalysable:" + key, "unanalysable: %s" % e, where=e.where, kind="unanalysable")
+        chk.floor(R, "key expressions", n_ok, 85)
+    finally:
+        B.fmt_value = orig
+        B.TRAIT_TABLE[("std::iter::Iterator", "collect")] = saved_collect
+
+
 def run(chk):
     F = chk.facts()
     chk.explanation = __doc__
@@ -791,3 +969,5 @@ def run(chk):
         chk.guard("R10.5", "constants", check_checksum_constants, chk, F)
     if not ONLY or "6" in ONLY:
         chk.guard("R10.6", "taptree", check_taptree_builder, chk, F)
+    if not ONLY or "7" in ONLY:
+        chk.guard("R10.7", "keys", check_key_expressions, chk, F)
